@@ -38,6 +38,14 @@ class LV:
         self.cont = cont
         self.kind = kind
 
+    def const_value(self):
+        """the number this label value denotes if it is a constant, else the value itself"""
+        p = self.poly
+        if not p.variables():
+            c = p.terms.get((), 0) if hasattr(p, "terms") else None
+            return c
+        return self
+
     def __eq__(self, o):
         return isinstance(o, LV) and self.poly == o.poly
 
